@@ -74,15 +74,15 @@ def cell_obligations(chk, F, which, rule, classes=None, kinds=None, prefix='cell
                 chk.ob(okey, rule, verdict(texts),
                        subject=fn_subject(F, fk) if fk else {},
                        expected='as the reference automaton: %s' % describe_leafs(spec, ss, cname, kind),
-                       found=[describe_row(F, r) for r in rows][:4],
+                       found=[describe_row(F, r) for r in rows[:4]],
                        why='channel(s) %s, state %s, input %s: %s' % (_chan_str(chans), A.typestate_label(F, cs), cname, '; '.join(texts)[:600]))
             elif not rows:
                 chk.ob(okey, rule, 'unproven', why='no outcome for this cell')
             else:
                 n += 1
                 chk.ob(okey, rule, 'proved', subject=fn_subject(F, fk) if fk else {},
-                       expected=describe_leafs(spec, ss, cname, kind), found=[describe_row(F, r) for r in rows][:3],
-                       sample={'state': A.typestate_label(F, cs), 'input': cname, 'outcomes': [describe_row(F, r) for r in rows][:3]} if n % 17 == 1 else None)
+                       expected=describe_leafs(spec, ss, cname, kind), found=[describe_row(F, r) for r in rows[:3]],
+                       sample={'state': A.typestate_label(F, cs), 'input': cname, 'outcomes': [describe_row(F, r) for r in rows[:3]]} if n % 17 == 1 else None)
     # mismatches that belong to no channel-0 cell (initial state, typestates only other channels reach)
     cls_kind = dict((c, k) for c, k, _ in spec.classes)
     for (shape, cname), mm in sorted(bad.items()):
